@@ -144,6 +144,15 @@ pub const HOSTILE: &[&str] = &[
     ":",
     "/ ",
     " ",
+    // characters whose lowercase form has a different byte length, next to the protocol marker
+    "İ//é",
+    "İİ//x",
+    "aİ//€€",
+    "K//x",
+    "Å//y",
+    "file://İ",
+    "/İ/../K",
+    "ǅ//ß",
 ];
 
 pub const MODES: &[u32] = &[0o777, 0o755, 0o700, 0o644, 0o600, 0o555, 0o444, 0o400, 0o200, 0o111, 0o1, 0o70, 0o7, 0o750, 0o640, 0o311];
@@ -512,7 +521,7 @@ impl Gen {
         const LINKS: &[K] = &[K::LinkF, K::LinkD];
         match kind {
             "abs" => {
-                if self.profile.name == "spelling-independence" && rng.chance(1, 6) {
+                if (self.profile.name == "spelling-independence" || self.profile.name == "backend-differential") && rng.chance(1, 6) {
                     // strings on which the documented resolution is unambiguous but easy to get
                     // wrong: protocol markers that are not prefixes, stacked markers, odd casing,
                     // dots next to separators, expansion errors
@@ -540,6 +549,9 @@ impl Gen {
                         format!("/$RV_UNSET/{}", n),
                         format!("/{}/${{}}", n),
                         format!("/{}$", n),
+                        "file://~".to_string(),
+                        format!("file://~/{}", n),
+                        format!("HTTPS://~/{}", n),
                     ];
                     return Op::Abs { p: rng.pick(&specials).clone() };
                 }
@@ -687,13 +699,29 @@ impl Gen {
                     },
                 }
             },
+            "copy_b_deferred" => {
+                let s = self.p_target(m, rng, None);
+                let d = self.fresh_child(m, rng);
+                let cwd = self.p_target(m, rng, Some(&[K::Dir]));
+                // relative spellings are the point: they mean something else after the cwd moved
+                let cur = m.t.cwd.clone();
+                let rel = |p: &str| if p == cur { ".".to_string() } else { refpath::relative(p, &cur) };
+                let (s, d) = if rng.chance(2, 3) { (rel(&s), rel(&d)) } else { (s, d) };
+                Op::CopyBDeferred { s, d, calls: vec![], cwd }
+            },
             "symlink" => {
                 let l = self.p_create(m, rng);
                 let tcanon = if rng.chance(3, 4) { self.p_target(m, rng, None) } else { self.random_path(rng) };
                 // target spelling: absolute, or relative to the link's directory
                 let lp = parent(&l).unwrap_or_else(|| "/".into());
                 let t = if rng.chance(1, 2) {
-                    tcanon.clone()
+                    // absolute, sometimes in an unclean spelling that stays absolute
+                    let sp = self.respell(&tcanon, m, rng);
+                    if sp.starts_with('/') {
+                        sp
+                    } else {
+                        tcanon.clone()
+                    }
                 } else {
                     let r = if tcanon == lp { ".".to_string() } else { refpath::relative(&tcanon, &lp) };
                     if rng.chance(1, 4) {
@@ -807,7 +835,18 @@ impl Gen {
                         });
                     },
                     "copyfile" => b = Some(if rng.chance(1, 2) { self.fresh_child(m, rng) } else { self.p_target(m, rng, None) }),
-                    "symlink" => b = Some(self.p_target(m, rng, None)),
+                    "symlink" => {
+                        let tcanon = self.p_target(m, rng, None);
+                        // absolute, or relative to the directory of the link (not to the cwd)
+                        let lp = parent(&a).unwrap_or_else(|| "/".into());
+                        b = Some(if rng.chance(1, 2) {
+                            tcanon
+                        } else if tcanon == lp {
+                            ".".to_string()
+                        } else {
+                            refpath::relative(&tcanon, &lp)
+                        });
+                    },
                     "mkdir_m" => mode = Some(0o40000 | self.mode(rng)),
                     _ => {},
                 }
